@@ -61,7 +61,7 @@ def configs(tier: str):
         out.append(kw)
 
     # core product
-    for mode, closure, size, shape in itertools.product(("ack", "unack"), (False, True), sizes, ("new", "existing", "dir")):
+    for mode, closure, size, shape in itertools.product(("ack", "unack"), (False, True), sizes, ("new", "existing", "dir", "dir_existing")):
         for nak in (("imm", "def") if mode == "ack" else ("imm",)):
             add(mode=mode, closure=closure, size=size, shape=shape, nak=nak)
     # checksum type x PDU CRC flag
@@ -85,10 +85,17 @@ def configs(tier: str):
     # zero-filled content
     for mode in ("ack", "unack"):
         add(mode=mode, closure=True, size=L + 1, zero=True)
+    if tier == "quick":
+        # quick: the same product over a subset of sizes and segment lengths
+        for mode, closure, cks, crc, size, shape, seg in itertools.product(
+                ("ack", "unack"), (False, True), ("crc32", "crc32c", "mod", "null"), (False, True), (0, L + 1, 2 * L + 1),
+                ("new", "existing", "dir", "dir_existing"), (2, 3)):
+            for nak in (("imm", "def") if mode == "ack" else ("imm",)):
+                add(mode=mode, closure=closure, cks=cks, crc_flag=crc, size=size, shape=shape, seg=seg, nak=nak)
     if tier == "thorough":
         for mode, closure, cks, crc, size, shape, seg in itertools.product(
                 ("ack", "unack"), (False, True), ("crc32", "crc32c", "mod", "null"), (False, True), sizes + [3 * L, 3 * L + 1],
-                ("new", "existing", "dir"), (1, 2, 3)):
+                ("new", "existing", "dir", "dir_existing"), (1, 2, 3)):
             if seg == 1 and size > 4:
                 continue
             for nak in (("imm", "def") if mode == "ack" else ("imm",)):
